@@ -743,7 +743,11 @@ def _crawl_directory_data_space(root, project, schema_function):
     # We compare paths to the 'realpath' of the project workspace to catch loops.
     workspace_real_path = os.path.realpath(project.workspace)
 
-    for path, dirs, _ in os.walk(root):
+    def _raise(error):
+        # A directory that cannot be listed must not be silently left out of the import.
+        raise error
+
+    for path, dirs, _ in os.walk(root, onerror=_raise):
         sp = schema_function(path)
         if sp is not None:
             del dirs[:]  # skip sub-directories
